@@ -229,6 +229,21 @@ SEEDS.update({
            "a unix socket / FIFO / device node named wal-<20 digits>: opened as a WAL file"),
 })
 
+# fifth (mini) round: six sub-agents (C02 C03 C09 C10 C12 C18), 25-minute budget, one change each; C12's was caught by the
+# crate's own suite (not a valid seed, kept under seeded/not-valid-C12-8 for the record)
+SEEDS.update({
+ "C02-8": ("Directory::gc drains the unused files into a Vec and unlinks them newest-first (Vec::pop)",
+           ">= 3 wal files, one GC pass freeing >= 2 files, a DeleteQueue / Truncate entry in the newer freed file for data in the older one, crash between the unlinks: the deleted queue comes back"),
+ "C03-8": ("FrameReader resets cursor / block_corrupted before asking for the next block (same change as C01-6)",
+           "log ending 0..6 bytes before the end of the newest wal file, reopen, one more persisted write, reopen: up to 32 KiB of persisted operations lost"),
+ "C09-8": ("MemQueues::ack_position leaves an existing EMPTY queue alone (reset only when non-empty)",
+           "queue appended, truncated to exactly empty, deleted, re-created, appended again; damage on exactly the DeleteQueue frame: open fails with Corruption"),
+ "C10-8": ("RollingWriter::write tests buf.len() > FILE_NUM_BYTES - offset (underflows when replay ended beyond FILE_NUM_BYTES)",
+           "over-long newest file (>= 2 extra harmless non-zero blocks reached by the replay) + an unreferenced older file + an empty queue, so that the GC at open writes: panic"),
+ "C18-8": ("run_gc_if_necessary persists on policy instead of FlushAndFsync before gc() (undoes the D1 fix for non-Always policies)",
+           "DoNothing / OnDelay policy, a truncate on queue a deletes the file holding queue b's creation while b's records are still buffered, no empty queue, crash"),
+})
+
 def parse_matrix(name):
     path = f"/tmp/seedmatrix_final/{name}.log"
     if not os.path.exists(path):
